@@ -266,6 +266,17 @@ class ParseModel(object):
                 self.goal = cells[0]
                 self.goal_is_cell = True
                 self.chart_args[self.goal] = None
+        # ... or in a plain standard list of items
+        self.goal_is_list = False
+        if self.chart and not self.goal:
+            import re as _re
+            lists = [n for n, d in locals_.items() if _re.match(r'^std::list<(parsing::)?cell_item(,std::allocator<(parsing::)?cell_item>)?>$',
+                                                                (d.dtype or d.type or '').replace(' ', ''))]
+            if len(lists) == 1:
+                self.goal = lists[0]
+                self.goal_is_cell = True
+                self.goal_is_list = True
+                self.chart_args[self.goal] = None
         if not self.chart or not self.goal:
             raise AnalysisError('%s: chart(length, ..) / goal chart(1, ..) not found' % H)
 
